@@ -1,4 +1,4 @@
-(* Tie theorems, the GetKey conversation (C17): the regenerated syntax of _client._process_ept_map_result, _process_get_key_result,
+(* Tie theorems, the GetKey conversation (C17; _process_ept_map_result is in Proofs/Flow_online_ept.v): the regenerated syntax of _client._process_get_key_result,
    _sync_get_key and _async_get_key (gen/F_online.v), run in the world Flow/World_online.v, computes the functions of
    Model/Conversation.v (and Epm.process_ept_map_result, Gkdi.process_get_key_result) the C17 theorems are about.  Both flavours are
    tied to the SAME model function get_key_conversation (at Sync resp. Async): the missing half of C17_sync_async_partial. *)
@@ -7,7 +7,7 @@ From V Require Import gen.F_online gen.K_client gen.C_client gen.C_rpc gen.K_rpc
 From V Require Import Model.Pdu Model.Request Model.Bind Model.Verification Model.Epm.
 From V Require Import Model.Handshake Model.Framing Model.Seal Model.Recv.
 From V Require Import Model.Types Model.Gkdi Model.Conversation.
-From V Require Import Flow.World_online Proofs.FlowClientLib Proofs.C17Consts Proofs.C17 Proofs.C17Examples.
+From V Require Import Flow.World_online Proofs.FlowClientLib Proofs.Flow_online_ept Proofs.C17Consts Proofs.C17 Proofs.C17Examples.
 Local Open Scope string_scope.
 Local Open Scope list_scope.
 Local Open Scope Z_scope.
@@ -34,82 +34,6 @@ Notation WT := (WO wrap unwrap prov legs dc efuel server username password auth_
 Section AnyTranscript.
 Context (tr : transcript).
 Notation W := (WT tr).
-
-Definition ept_outer_body : list pstmt :=
-  match nth 2 (pf_body k_flow_process_ept_map_result) SPass with SFor _ _ b => b | _ => [] end.
-Definition ept_inner_body : list pstmt :=
-  match nth 0 ept_outer_body SPass with SFor _ _ b => b | _ => [] end.
-
-Lemma ept_inner fuel : forall (t : list Epm.floor) env,
-  lookup "TCPFloor" env = None ->
-  match first_tcp_port_tower t with
-  | Some p => for_each W fuel ["floor"] ept_inner_body (map floorv t) env = Ok (Ret (VI p))
-  | None => exists env', for_each W fuel ["floor"] ept_inner_body (map floorv t) env = Ok (Next env')
-            /\ (forall x, String.eqb x "floor" = false -> lookup x env' = lookup x env)
-  end.
-Proof.
-  induction t as [|f r IH]; intros env Hg.
-  - cbn. exists env. auto.
-  - cbn [first_tcp_port_tower map for_each]. unfold ept_inner_body, ept_outer_body.
-    cbn [nth pf_body k_flow_process_ept_map_result]. cbn. unfold test. cbn. rewrite Hg. cbn.
-    rewrite truthy_vb. unfold floor_tcp_port.
-    destruct (fl_kind f) eqn:Ek; cbn; rewrite ?Ek; try reflexivity;
-      (specialize (IH (update "floor" (floorv f) env)); cbn in IH; specialize (IH Hg);
-       unfold ept_inner_body, ept_outer_body in IH; cbn [nth pf_body k_flow_process_ept_map_result] in IH;
-       destruct (first_tcp_port_tower r) as [p|]; [exact IH|];
-       destruct IH as [env' [H1 H2]]; exists env'; split; [exact H1|];
-       intros x Hx; rewrite (H2 x Hx); cbn; rewrite Hx; reflexivity).
-Qed.
-
-
-Lemma ept_outer fuel : forall (towers : list (list Epm.floor)) env,
-  lookup "TCPFloor" env = None ->
-  match first_tcp_port towers with
-  | Some p => for_each W fuel ["tower"] ept_outer_body (map towerv towers) env = Ok (Ret (VI p))
-  | None => exists env', for_each W fuel ["tower"] ept_outer_body (map towerv towers) env = Ok (Next env')
-  end.
-Proof.
-  induction towers as [|t r IH]; intros env Hg.
-  - cbn. exists env. auto.
-  - cbn [first_tcp_port map for_each]. unfold ept_outer_body in *.
-    cbn [nth pf_body k_flow_process_ept_map_result bind_targets bind] in *.
-    rewrite exec_block_cons, exec_for. cbn [eval lookup update String.eqb Ascii.eqb Bool.eqb bind].
-    pose proof (ept_inner fuel t (update "tower" (towerv t) env)) as Hin. cbn in Hin. specialize (Hin Hg).
-    unfold ept_inner_body, ept_outer_body in Hin. cbn [nth pf_body k_flow_process_ept_map_result] in Hin.
-    unfold update in *.
-    assert (Hit : w_iter W (towerv t) = Ok (map floorv t)) by reflexivity.
-    destruct (first_tcp_port_tower t) as [p|].
-    + rewrite Hit. cbn [bind]. rewrite Hin. reflexivity.
-    + destruct Hin as [env' [H1 H2]].
-      specialize (IH env'). rewrite (H2 "TCPFloor" eq_refl) in IH. cbn in IH. specialize (IH Hg).
-      destruct (first_tcp_port r) as [p|].
-      * rewrite Hit. cbn [bind]. rewrite H1. cbn [bind exec_block]. exact IH.
-      * destruct IH as [env2 H3]. exists env2. rewrite Hit. cbn [bind]. rewrite H1. cbn [bind exec_block]. exact H3.
-Qed.
-
-(* _process_ept_map_result(response); EptMapResult.unpack runs with the model's loop fuel efuel *)
-Lemma flow_process_ept_map_result fuel rsp :
-  run W fuel k_flow_process_ept_map_result [VO (OResp rsp)]
-  = (let* (p, _) := process_ept_map_result efuel (rs_stub_data rsp) in Ok (VI p)).
-Proof.
-  unfold process_ept_map_result, k_ept_status_bad.
-  unfold run. cbn [bind_params pf_params pf_body k_flow_process_ept_map_result].
-  match goal with |- context [exec_block W fuel ?body ?env] => change body with (firstn 2 body ++ skipn 2 body) end.
-  rewrite exec_block_app. cbn [firstn skipn].
-  match goal with |- context [exec_block W fuel ?rest _] =>
-    match rest with SFor _ _ _ :: _ => remember rest as tl eqn:Etl end end.
-  cbn.
-  destruct (ept_map_result_unpack efuel (rs_stub_data rsp)) as [[m tk]|e]; cbn; [|reflexivity].
-  unfold test. cbn. destruct (er_status m =? 0); cbn; [|reflexivity].
-  subst tl. rewrite exec_block_cons, exec_for. cbn.
-  pose proof (ept_outer fuel (er_towers m)
-     [("map_response", VO (OEptRes m)); ("response", VO (OResp rsp))] eq_refl) as H.
-  unfold ept_outer_body in H. cbn [nth pf_body k_flow_process_ept_map_result] in H. unfold update.
-  destruct (first_tcp_port (er_towers m)) as [p|].
-  - rewrite H. reflexivity.
-  - destruct H as [env' H]. rewrite H. reflexivity.
-Qed.
-
 
 (* _process_get_key_result(response) *)
 Lemma flow_process_get_key_result fuel rsp :
